@@ -341,7 +341,7 @@ func (e *explorer) transition(hist []uint8, op int, idx int64, alsoProgram bool)
 			e.r.Sample(map[string]any{"history": k.Src, "model": res.pred.String(), "got": res.got, "features": featString(res.pred.feats)})
 		}
 	}
-	if changed && !e.ops[op].leaf {
+	if changed && !e.ops[op].isLeafAt(len(ops)) {
 		e.mu.Lock()
 		e.cands = append(e.cands, cand{idx: idx, key: hashKey(res.postKey)})
 		e.mu.Unlock()
@@ -349,8 +349,15 @@ func (e *explorer) transition(hist []uint8, op int, idx int64, alsoProgram bool)
 	if e.ops[op].later && len(ops) <= laterDepth {
 		// the session goes on after the failed / handled call: each later
 		// operation is applied as a separate operation and checked in full
-		for _, ln := range laterOps {
-			li := e.opIndex[ln]
+		set := e.ops[op].laterSet
+		if set == nil {
+			set = laterOps
+		}
+		for _, ln := range set {
+			li, ok := e.opIndex[ln]
+			if !ok {
+				continue // not in this tier's alphabet
+			}
 			h := append(append(make([]uint8, 0, len(hist)+1), hist...), uint8(op))
 			lk := e.kaseOf("forms", h, li)
 			lops := append(append(make([]*opDef, 0, len(ops)+1), ops...), e.ops[li])
@@ -458,6 +465,7 @@ func run(r *core.Run) {
 	r.Bound("full_alphabet_up_to_depth", fullDepth)
 	r.Bound("program_mode_per_transition_up_to_depth", progDepth)
 	r.Bound("later_operations", laterOps)
+	r.Bound("later_operations_after_a_rebinding_shortcut", importOps)
 	r.Bound("later_operations_up_to_depth", laterDepth+1)
 	limited := map[string]int{}
 	minLimited := map[string]int{}
